@@ -74,6 +74,8 @@ type Engine struct {
 	loopTimeCtx string // clock at entry of the loop whose clause is being evaluated
 	letFrames   [][]letBind
 	letOff      map[int]bool
+	effMethods  map[string]bool
+	effFuncTypes bool
 }
 
 type letBind struct{ name, term string }
